@@ -11,5 +11,25 @@ CHECKS = {
         note="Trusted: TLC, the Go race detector, the mutex-ordered event log as real-time order. Bounds: 3 produced chunks x 5-6 consumer ops in the "
              "statement model; sequential histories of length 5 (quick) / 7 (thorough); 24 / 120 recorded concurrent histories."),
 }
+CHECKS["C01"] = dict(
+    category="model_checking", design_ref="DESIGN.md §5 C01, §11",
+    technique="TLA+/TLC: Channel.tla (transport read loop, queue, echo wait, prompt wait, post-processing) checked for every cut of the device stream; "
+              "TLC-generated scripted sessions with predicted results replayed on the real generic/network drivers under varied segmentations and delays",
+    text="Channel.tla models one CLI session at the granularity of the code's critical sections with the segmentation of the byte stream as an existential "
+         "choice, and TLC shows Aligned / DeviceGot / NoForeign / termination for every cut, read size, depth, strip/exact/echo style within the bounds. "
+         "ChannelScn.tla generates scripted sessions that satisfy the property's preconditions together with the results the contract predicts; the harness "
+         "drives generic.Driver and network.Driver (SendCommand, SendCommands) against a causal scripted device under 4-8 segmentation/delay variants and compares "
+         "Result/RawResult and the lines the device received. A deviation of the code (echo wait satisfied by stale bytes) is modelled as Text!EarlyEcho and listed as a known finding.",
+    note="Trusted: TLC; the scripted device (causal, never cuts inside an escape sequence); concretisation of the abstract alphabet. Bounds: 2 commands, outputs <= 11 symbols, "
+         "read sizes {1,3,all}, queue <= 3 in the exhaustive config; 260 (quick) / 2500 (thorough) generated sessions x 4 / 8 variants.")
+CHECKS["C13"] = dict(
+    category="model_checking", design_ref="DESIGN.md §5 C13, §11",
+    technique="TLA+/TLC: FailMark.tla enumerates every (outputs, driver list, operation list, stop flag) combination with the predicted observables; each is replayed on every "
+              "send-commands / send-configs variant of the real drivers and the responses and device log are compared",
+    text="The failure-marking contract (list in force, substring scan on the post-processed output, first matching string, aggregate = exactly the failed members, "
+         "stop-on-failed = nothing transmitted after the first failed command, collapsed config response) is a TLA+ module whose whole scenario space up to the bound is "
+         "enumerated by TLC (sanity invariants StopIsPrefix, OpWins, AggregateExact) and replayed on generic/network SendCommands, SendCommandsFromFile, SendConfigs, "
+         "SendConfigsFromFile and SendConfig; Failed flags, error strings, aggregate members, response counts, collapsed result and the lines the device received are compared.",
+    note="Trusted: TLC, the scripted device. Exhaustive over lists of <= 3 (quick) / 4 (thorough) outputs from 5-7 templates x 3 driver lists x 3 operation lists x stop.")
 PENDING_REASON = "check not built yet in this session (work in progress; see DESIGN.md §5 for the planned TLA+ specification and binding)"
 NOT_APPLICABLE = {}
